@@ -760,3 +760,15 @@ func init() {
 	nontrivialRule["C10"] = "at least one block with a trigger (alliance stake, native stake, weight, slash, bond status) ended while some bonded validator had a non-zero target or alliance-minted stake"
 	expectedProbes["C10"] = []string{"c10_trigger_native-stake", "c10_trigger_alliance-stake", "c10_trigger_slash", "c10_trigger_bond-status", "c10_trigger_reward-weight", "c10_trigger_warm-up-ended", "c10_full_native_undelegation", "c10_exchange_rate_not_one", "c10_non_bonded_with_module_stake"}
 }
+
+func init() {
+	monitorRegistry["C11"] = func(s *Schedule) []Monitor { return []Monitor{newMonC11()} }
+	nontrivialRule["C11"] = "at least one end-of-block ran (every step checks the net supply and the bank supply queries)"
+	expectedProbes["C11"] = []string{"c11_rebalance_up", "c11_rebalance_down", "c11_real_slash", "c11_bond_denom_donation"}
+}
+
+func init() {
+	monitorRegistry["C12"] = func(s *Schedule) []Monitor { return []Monitor{newMonC12()} }
+	nontrivialRule["C12"] = "claim-for-everyone was executed in a state with at least one delegation"
+	expectedProbes["C12"] = []string{"c12_settlement", "c12_slash_with_accrued_unclaimed_rewards", "c12_take_rate_between_accrual_and_claim"}
+}
